@@ -405,3 +405,31 @@ def t14_two_roots_facade() -> Iterator[Dict[str, Any]]:
                    mod("user", 1, ops=flat(frm("core.shapes", "Shape"), cls("Circle", "Shape"), frm("", "shapes", "sh", lvl=1), cls("Sq", "sh.Shape"))),
                    mod("facade", pkg=True, ops=[frm("core.shapes", "Shape")], all=["Shape"]),
                    mod("extra", 4, ops=flat(frm("core.shapes", "Shape"), cls("Tri", "Shape")))], "T14")
+
+
+def t15_rebinding() -> Iterator[Dict[str, Any]]:
+    """T15: a name bound twice in one module - imported then defined (class W(W)), defined then imported, imported then
+       re-assigned through an alias, two imports, variable and import, a class attribute named like a module-level
+       function - seen from inside the module, through `from .w import name`, through a module alias, and with the
+       package re-exporting the name.  Python: the last binding wins."""
+    shapes = {
+        "import-then-class": ("W", flat(frm("b", "W", lvl=1), cls("W", "W", body=[fn("extra")]))),
+        "class-then-import": ("W", flat(cls("W", body=[fn("extra")]), frm("b", "W", lvl=1))),
+        "import-then-alias": ("enc", flat(frm("b", "enc", lvl=1), frm("o", "enc", "_py", lvl=1), alias("enc", "_py"))),
+        "alias-then-import": ("enc", flat(frm("o", "enc", "_py", lvl=1), alias("enc", "_py"), frm("b", "enc", lvl=1))),
+        "two-imports": ("W", flat(frm("b", "W", lvl=1), frm("o", "W", lvl=1))),
+        "var-then-import": ("W", flat(var("W"), frm("b", "W", lvl=1))),
+        "import-then-var": ("W", flat(frm("b", "W", lvl=1), var("W"))),
+        "import-then-def": ("enc", flat(frm("b", "enc", lvl=1), fn("enc"))),
+        "def-then-import": ("enc", flat(fn("enc"), frm("b", "enc", lvl=1))),
+        "class-attr-like-module-function": ("dec", flat(fn("dec"), cls("Codec", body=[alias("dec", "dec")]))),
+    }
+    for shape, (name, ops) in shapes.items():
+        for reexport in (False, True):
+            init = mod("p", pkg=True, ops=[frm("w", name, lvl=1)], all=[name]) if reexport else mod("p", pkg=True)
+            use = flat(frm("w", name, "X", lvl=1), imp("p.w", "m"), alias("y", "m." + name))
+            if name == "W":
+                use += cls("D", "X")
+            second = [mod("o", 1, ops=flat(cls("W", body=[fn("paint")]), fn("enc")))] if any(o.get("m") == ["o"] for o in ops) else []
+            yield project([init, mod("b", 1, ops=flat(cls("W", body=[fn("draw")]), fn("enc")))] + second
+                          + [mod("w", 1, ops=ops), mod("c", 1, ops=use)], "T15", shape=shape, reexport=reexport)
